@@ -97,7 +97,9 @@ Record constraint := C { c_req : bool; c_ty : option tyc }.
 Inductive j5ext :=
 | XArray (single_form : option str) | XMap (single_form : option str)
 | XObject (flatten : bool) | XEnum | XOneof | XString | XInteger | XFloat
-| XBool | XBytes | XTimestamp | XKey | XAny (only_defined : bool) (types : list str)
+| XBool | XBytes | XTimestamp
+| XKey (f : option kfmt)     (* (j5.ext.v1.field).key: format (UNSPECIFIED = informal) or pattern *)
+| XAny (only_defined : bool) (types : list str)
 | XDate (r : option txt_rules) | XDecimal (r : option txt_rules)
 | XOther.
 
